@@ -21,8 +21,10 @@ RULE = ("Hypothesis: solver in {greedy, greedy_worst, largest, random} x generat
         "hidden game each worker actually sees to a per-process file. Oracles: (1) every column replays, on an env-free model with "
         "fresh bounds and an independent gap, from a recorded hidden game (perfect matching columns<->records); ids distinct, "
         "explorable, zero padding only after the model says done; (2) matrices for p>1 equal those for p=1 exactly; (3) number of "
-        "distinct recorded games == R for continuous seed-honouring generators. Non-trivial: R >= 4, some p >= 2 with R > p, "
-        "continuous generator; distinct = hash of the configuration.")
+        "distinct recorded games == R for continuous seed-honouring generators. A second family of shards runs n=5 with the approximate "
+        "SAM bounds (sam_apx_1 / sam_apx_10) on the integer / tied SAM families (k_budget, coverage, xs2, xs3, ...) mostly under the "
+        "order-agnostic random solver, R in {3,4,6}: there coalitions are pinned before they are revealed and a stale row shows. "
+        "Non-trivial: R >= 4, some p >= 2 with R > p, continuous generator - or n=5 with R >= 3; distinct = hash of the configuration.")
 LEVEL_TEXT = ("Generated configurations, differential over process counts, with an implementation-independent observation channel "
               "(the after_reset callback) for which hidden game each repetition used. Chunkings of the task list are varied through (R, "
               "p); OS scheduling is not controlled and the property does not depend on it.")
@@ -183,7 +185,7 @@ def check_case(case: dict) -> Result:
                 bad = [j for j in range(R) if not (np.array_equal(base[0][:, j], expl[:, j]) and np.array_equal(base[1][:, j], acts[:, j]))]
                 res.fail(f"process-dependent :: {w}: result differs from processes={case['procs'][0]} in columns {bad[:6]}")
                 break
-    res.nontrivial = R >= 4 and any(p >= 2 and R > p for p in case["procs"]) and continuous
+    res.nontrivial = (R >= 4 and any(p >= 2 and R > p for p in case["procs"]) and continuous) or (cfg["n"] >= 5 and R >= 3)
     res.label(f"solver={cfg['solver']}", f"gen={cfg['generator']}", f"n={cfg['n']}", f"R>={R // 6 * 6}", f"procs={case['procs']}")
     return res
 
@@ -216,6 +218,21 @@ def reproduce_known(entry: dict):
 
 
 @st.composite
+def sam5_cases(draw, known_keys):
+    """Five players, approximate SAM bounds, SAM generator families whose integer / tied values pin coalitions before they are
+    revealed; order-agnostic solver most of the time.  Few repetitions (the matching replays R x R columns)."""
+    solver = draw(st.sampled_from(["random", "random", "random", "greedy_worst", "largest", "greedy"]))
+    gen = draw(st.sampled_from(["k_budget_generator", "k_budget_generator", "k_budget_generator", "covg_fn_generator", "covg_fn_generator", "xos2", "xos_norm_additive", "xs2", "xs3"]))
+    comp = draw(st.sampled_from(["sam_apx_1", "sam_apx_10", "sam_apx_1", "sam_apx_10", "sam_apx_1", "superadditive_cached"]))
+    R = draw(st.sampled_from([3, 4, 6]))
+    limit = draw(st.sampled_from([None, None, 12, 20]))
+    procs = [1, draw(st.sampled_from([2, 3, 5]))]
+    cfg = {"solver": solver, "generator": gen, "n": 5, "computer": comp, "gap": draw(st.sampled_from(["exploitability", "l1_norm", "l2_norm", "linf_norm"])),
+           "limit": limit, "seed": draw(st.integers(0, 2**40)), "R": R}
+    return {"cfg": cfg, "procs": procs, "known_keys": sorted(known_keys)}
+
+
+@st.composite
 def cases(draw, all_families: bool, known_keys):
     from .. import libgames
     solver = draw(st.sampled_from(["greedy", "greedy_worst", "largest", "random"]))
@@ -241,9 +258,12 @@ def cases(draw, all_families: bool, known_keys):
 
 def plan(tier: str) -> list[dict]:
     if tier == "quick":
-        return [{"examples": 6, "all_families": False, "cost": 6} for _ in range(6)]
-    return [{"examples": 90, "all_families": True, "cost": 12} for _ in range(16)]
+        return [{"examples": 6, "all_families": False, "cost": 6} for _ in range(6)] + [{"examples": 5, "sam5": True, "cost": 6} for _ in range(5)]
+    return [{"examples": 90, "all_families": True, "cost": 12} for _ in range(12)] + [{"examples": 40, "sam5": True, "cost": 12} for _ in range(4)]
 
 
 def run_shard(spec: dict, ctx: Ctx) -> None:
+    if spec.get("sam5"):
+        ctx.run_given(sam5_cases(ctx.known_keys), check_case, spec["examples"], shrink=False)
+        return
     ctx.run_given(cases(spec["all_families"], ctx.known_keys), check_case, spec["examples"], shrink=False)
